@@ -928,6 +928,14 @@ int ys_scan(ys_rules* r, ys_scanner* s, const uint8_t* data, size_t len,
   case YS_SCAN_FILE:
   case YS_SCAN_FD:
   {
+    if (o->entry == YS_SCAN_FILE && o->scan_path)
+    {
+      if (s)
+        rc = yr_scanner_scan_file(s->s, o->scan_path);
+      else
+        rc = yr_rules_scan_file(r->r, o->scan_path, o->flags, scan_cb, &sc, o->timeout);
+      break;
+    }
     int fd = data_fd(data, len);
     if (fd < 0)
     {
